@@ -134,9 +134,14 @@ def threads(c):
     """Several threads call the lookup functions in tight loops, each on its own list of calls; every
     result is compared with the value given for that call (computed beforehand by the harness from the
     board description) and with the value the same call returned single-threaded at the start."""
+    import signal
     import sys
     import threading
     import time
+    # this case runs for c["seconds"] of wall time on several threads (and then a traced deterministic part): lift
+    # the per-case CPU-time limit of implutil.run_cases accordingly (it is re-armed for the next case)
+    signal.setitimer(signal.ITIMER_PROF, 10 * c["seconds"] + 120)
+    signal.alarm(int(20 * c["seconds"]) + 600)
     fns = dict(chip=geometry.spinn5_chip_coord, local=geometry.spinn5_local_eth_coord,
                fpga=lambda x, y, l, rx, ry: geometry.spinn5_fpga_link(x, y, Links(l), rx, ry))
 
